@@ -131,7 +131,7 @@ def _run_structural(ctx):
     for f in [tw, visit, idx.func("gwf.plugins.touch:touch")]:
         for n in walk_no_nested(f.node):
             for e in res.node_effects(n, f):
-                if e.kind in ("FS_DELETE",) or (e.kind == "FS_WRITE" and e.detail not in (".touch()", ".mkdir()", "os.makedirs")):
+                if e.kind in ("FS_DELETE",) or (e.kind == "FS_WRITE" and e.detail not in (".touch()", ".mkdir()", "os.makedirs", "os.utime")):   # utime changes the time stamp, not the content
                     r2.violation(f"{f.module.relpath}::{f.qual}::{e.detail}", f"touch performs `{e.detail}`: it must never alter the content of an existing file or remove one", e.where)
     for c, st in sem.touches:
         from ..astutil import single_assignments
